@@ -21,6 +21,7 @@ EXPLANATION = (
     "exclude is tested before each copy and the clone branch is examined for it; (e) all resolved internal calls are "
     "arity / keyword compatible; (f) parallel and sequential branches apply the same function to the same job list, and "
     "that list is the whole source only under `selection is None`."
+    ' (g) The lazy accessors Job.document / Job.stores initialise without validation, so evaluating dst.document in a dry run cannot write a state point file.'
 )
 UNDECIDED = "That parallel and sequential runs leave identical destination trees, and what a dry run prints, are not decided."
 
